@@ -283,6 +283,8 @@ def _expand_variants(segs):
     return out
 
 
+_inline_allow = set()     # helper names the verifier reported as unknown on the first attempt (R3h is applied to these only)
+_known_fns = set()        # every fn the unit has text for (stubs, extracts): calls of other same-file helpers are inlined (R3h)
 _files = {}
 _struct_cells = {}      # struct name -> cells declared on its //@extract struct block (unit-wide R5 for its methods)
 _defaults = {}          # type name -> list of (kind, payload) default directives for its fn extracts
@@ -449,6 +451,38 @@ def expand_extract(ex, canary=False):
         out.append(inner[last:])
         body = '{ let %s = vx_item; %s }' % (pat, ''.join(out))
         orig = src[loc['body_open'] + kw:loc['body_open'] + lbc + 1]
+    if ex.kind == 'fn' and ex.as_sig:
+        # R7p: the contract is written over the parameter names of the `as:` signature; if the real signature names a
+        # parameter differently (a rename), the real name is bound to the contract's by position
+        def _params(sig_text):
+            sm_ = mask(sig_text)
+            po_ = sm_.find('(', sm_.find('fn '))
+            if po_ < 0:
+                return None
+            pc_ = rsrc.match_close(sm_, po_, '(', ')')
+            ps_ = [x.strip() for x in rsrc.split_top_commas((sig_text[po_ + 1:pc_], sm_[po_ + 1:pc_])) if x.strip()]
+            names_ = []
+            for prm in ps_:
+                if re.match(r'^(&\s*(\'\w+\s+)?(mut\s+)?)?self\b', prm):
+                    continue
+                mo_ = re.match(r'^(?:mut\s+)?([A-Za-z_]\w*)\s*:', prm)
+                names_.append(mo_.group(1) if mo_ else None)
+            return names_
+        real_p, as_p = _params(sig), _params(ex.as_sig)
+        if real_p is not None and as_p is not None and len(real_p) == len(as_p):
+            binds = ['let %s = %s;' % (r_, a_) for r_, a_ in zip(real_p, as_p) if r_ and a_ and r_ != a_ and not r_.startswith('_')]
+            if binds and set(r_ for r_ in real_p if r_) != set(a_ for a_ in as_p if a_) or any(r_ and a_ and r_ != a_ and r_ not in as_p for r_, a_ in zip(real_p, as_p)):
+                pass
+            # bind simultaneously (a permutation of the same names must not shadow itself)
+            pairs = [(r_, a_) for r_, a_ in zip(real_p, as_p) if r_ and a_ and r_ != a_ and not r_.startswith('_')]
+            if pairs:
+                body = '{ let (%s,) = (%s,); %s }' % (', '.join(r_ for r_, _ in pairs), ', '.join(a_ for _, a_ in pairs), body)
+                fired.append('R7p parameters bound by position: %s' % ', '.join('%s := %s' % pr for pr in pairs))
+    if _inline_allow and ex.kind in ('fn', 'loopbody'):
+        # on demand only (unit.verify retries with the names the verifier could not resolve)
+        body, inl = rules.r3_inline_helpers(body, src, _known_fns - _inline_allow, ex.name, only=_inline_allow)
+        if inl:
+            fired.append('R3h helper(s) inlined: %s' % ', '.join(inl))
     n_loops_orig = len(rsrc.loops(body))
     text = body
     text, n = rules.strip_attrs(text)
@@ -489,6 +523,12 @@ def expand_extract(ex, canary=False):
     text, n = rules.r7_eta_constructor(text)
     if n:
         fired.append('R7d eta-expanded constructor x%d' % n)
+    text, n = rules.r7_map_or_literal(text)
+    if n:
+        fired.append('R7g map_or(literal, closure) -> match x%d' % n)
+    text, n = rules.r7_closure_wildcard_param(text)
+    if n:
+        fired.append('R7i closure parameter `_` named x%d' % n)
     text, n = rules.r7_closure_tuple_param(text)
     if n:
         fired.append('R7c closure tuple parameter x%d' % n)
@@ -662,6 +702,9 @@ def generate(template_text, canary=False):
     """Expand a template.  Returns (generated_text, info) with
     info = dict(extracts=[meta + gen_start/gen_end], lemmas=[...], trusted=[...])."""
     segs = parse(template_text)
+    _known_fns.clear()
+    _known_fns.update(re.findall(r'\bfn\s+(\w+)', template_text))
+    _known_fns.update(re.findall(r'//@ name:\s*(\w+)', template_text))
     out_lines = 0
     out = []
     extracts, lemmas, trusted, twins = [], [], [], []
